@@ -39,7 +39,7 @@ def setup_worker(mode, shard, extra):
     NESTED_MODE = (mode == 'enum' and extra == 'nested') or (mode == 'hyp' and shard % 2 == 1)
 
 
-CHILD = {'steps': [S([['yield'], ['soon', 'ok', 'cc']], ['continue', 1, [], {}], True), S([['out', 'x', 1]], ['value', 1])]}
+CHILD = {'steps': [S([['yield'], ['soon', 'ok', 'cc'], ['soon_parent', 'pc1']], ['continue', 1, [], {}], True), S([['out', 'x', 1], ['soon_parent', 'pc2']], ['value', 1])]}
 CHILD_WAITS = {'steps': [S([['gate', 'cg']], ['value', 2], True)]}
 SHAPES = {
     'y1': {'steps': [S([['yield']], ['value', 1], True)]},
@@ -82,7 +82,7 @@ def _program(draw, depth, nested_ok, pid_base):
         is_async = draw(st.booleans())
         body = []
         for j in range(draw(st.integers(0, 4))):
-            kinds = ['out', 'soon', 'status']
+            kinds = ['out', 'soon', 'status', 'soon_parent']
             if is_async:
                 kinds += ['yield', 'yield', 'yield', 'gate']
             if depth > 0:
@@ -98,6 +98,8 @@ def _program(draw, depth, nested_ok, pid_base):
                 body.append(['out', draw(st.sampled_from(['x', 'ns.y'])), j])
             elif kind == 'soon':
                 body.append(['soon', 'ok', 'c%d' % j])
+            elif kind == 'soon_parent':
+                body.append(['soon_parent', 'p%d' % j])
             elif kind == 'status':
                 body.append(['status', 's'])
             else:
